@@ -113,7 +113,7 @@ def run(ctx):
     inp = {"mode": "replay", "powers": powers, "byz": byz, "maxround": 14, "scheds": scheds, "synctail": not quick,
            "syncmax": 2 * nvals, "byzafter": True, "random": 0}
     rows, stats = cc.run_driver(ctx, binp, inp, "A")
-    inp2 = dict(inp, scheds=[], synctail=True, random=80 if quick else 2000, randlen=60)
+    inp2 = dict(inp, scheds=[], synctail=True, random=80 if quick else 1000, randlen=60)
     rows2, stats2 = cc.run_driver(ctx, binp, inp2, "A2")
     off = max([r["run"] for r in rows] + [0])
     for r in rows2:
@@ -133,7 +133,7 @@ def run(ctx):
         info3 = cc.run_driver(ctx, binp, {"mode": "info", "powers": powers, "byz": [], "maxround": 16}, "info" + tag)
         byz3 = [info3["names"][bi]]
         mcs = cc.net_mc(ctx, "C03_pre_" + tag, info3, byz3, 2, lazy=False, view=False)
-        nb = 40 if quick else 2000
+        nb = 40 if quick else 300
         rS = ctx.tlc(mcs, mcs + ".cfg", simulate="file=%s,num=%d" % (os.path.join(ctx.spec_copy(), "pre" + tag), nb),
                      depth=50, seed=ctx.seed, workers=1, timeout=1500, label="C03_pre_" + tag)
         if rS.violations or rS.errors:
@@ -147,7 +147,7 @@ def run(ctx):
                 scheds.append({"id": 300000 + 10 * k + rep, "steps": a["steps"]})
         n3 = len(powers)
         inp = {"mode": "replay", "powers": powers, "byz": byz3, "maxround": 14, "scheds": scheds, "synctail": True,
-               "syncmax": 2 * n3, "byzafter": True, "random": 60 if quick else 3000, "randlen": 70}
+               "syncmax": 2 * n3, "byzafter": True, "random": 60 if quick else 500, "randlen": 70}
         rows, stats = cc.run_driver(ctx, binp, inp, tag)
         v = cc.validate(ctx, rows, info3, byz3, 14, tag, dedupe=True)
         account(v, rows, "3+1 " + tag)
